@@ -26,6 +26,11 @@ type C02File struct {
 	Target    *fstree.Content `json:"target,omitempty"`
 	Basis     *fstree.Content `json:"basis,omitempty"`
 	NoBasis   bool            `json:"no_basis,omitempty"`
+	// HugeBasis > 0 (receiver mode): the basis is a sparse file of this many
+	// bytes (2 GiB and more) with random data in its last 256 KiB and around
+	// the 2 GiB and 4 GiB marks; block references go to offsets no 32-bit
+	// product can hold
+	HugeBasis int64 `json:"huge_basis,omitempty"`
 	BlockLen  int             `json:"block_len"`
 	StrongLen int             `json:"strong_len"`
 }
@@ -120,6 +125,15 @@ func (c02) Generate(seed uint64, tier string, index int) any {
 				f.NoBasis = true
 			}
 			sc.Files = append(sc.Files, f)
+		}
+		hugeOdds := 300
+		if tier == "thorough" {
+			hugeOdds = 100
+		}
+		if g.R.Intn(hugeOdds) == 0 {
+			// one sparse basis of 2 GiB or more (the real generator checksums all
+			// of it: a few seconds of CPU, hence rarely)
+			sc.Files = []C02File{{Name: "huge", Basis: g.Content(1), HugeBasis: []int64{1<<31 + 12345, 1<<31 + 1<<30, 1<<32 + 4096, 1<<32 + 1<<29 + 7}[g.R.Intn(4)]}}
 		}
 		sc.Tr = g.TransportFor(12, 4<<20)
 		return sc
@@ -442,6 +456,43 @@ func descToks(toks []refproto.Tok) string {
 	return s
 }
 
+// writeHugeBasis creates a sparse file of n bytes with random data in its last
+// 256 KiB and in 128 KiB around the 2 GiB and 4 GiB marks.
+func writeHugeBasis(path string, n int64, seed uint64) error {
+	f, err := os.Create(path)
+	if err != nil {
+		return err
+	}
+	defer f.Close()
+	if err := f.Truncate(n); err != nil {
+		return err
+	}
+	rng := kernel.NewRNG(seed ^ 0x6875676562617369)
+	spot := func(off, l int64) error {
+		if off < 0 {
+			off = 0
+		}
+		if off+l > n {
+			l = n - off
+		}
+		if l <= 0 {
+			return nil
+		}
+		b := make([]byte, l)
+		for i := range b {
+			b[i] = byte(rng.Uint64())
+		}
+		_, err := f.WriteAt(b, off)
+		return err
+	}
+	for _, o := range []int64{n - 256<<10, 1<<31 - 64<<10, 1<<32 - 64<<10} {
+		if err := spot(o, 256<<10); err != nil {
+			return err
+		}
+	}
+	return nil
+}
+
 func c02Receiver(t *testing.T, sc *C02Scenario, job *Job, res *Result) {
 	lay := NewLayout(job.Scratch)
 	os.MkdirAll(lay.Dst, 0755)
@@ -450,6 +501,18 @@ func c02Receiver(t *testing.T, sc *C02Scenario, job *Job, res *Result) {
 	for i := range sc.Files {
 		f := &sc.Files[i]
 		byName[f.Name] = f
+		if f.HugeBasis > 0 {
+			if f.HugeBasis < 1<<31 || f.HugeBasis > 1<<34 {
+				res.Invalid = "huge basis size"
+				return
+			}
+			if err := writeHugeBasis(filepath.Join(lay.Dst, f.Name), f.HugeBasis, sc.ScriptSeed); err != nil {
+				res.Inconclusive = "cannot create the sparse basis: " + err.Error()
+				return
+			}
+			entries = append(entries, refproto.Entry{Name: f.Name, Mode: refproto.SIFREG | 0644, Mtime: 1400000000 + int32(i), Size: 12345})
+			continue
+		}
 		b := f.basis()
 		if !f.NoBasis {
 			if err := os.WriteFile(filepath.Join(lay.Dst, f.Name), b, 0644); err != nil {
@@ -468,7 +531,7 @@ func c02Receiver(t *testing.T, sc *C02Scenario, job *Job, res *Result) {
 		res.Inconclusive = err.Error()
 		return
 	}
-	nrefs, nrem, nout := 0, 0, 0
+	nrefs, nrem, nout, nhuge := 0, 0, 0, 0
 	var sr *refproto.SendResult
 	rr := &RefRun{Tr: sc.Tr, GuardReal: true,
 		Real: func(ctx context.Context, end *kernel.End) error {
@@ -480,6 +543,45 @@ func c02Receiver(t *testing.T, sc *C02Scenario, job *Job, res *Result) {
 			sr, err = refproto.Send(w, refproto.SendOpts{Server: true, Daemon: true, Seed: int32(sc.ScriptSeed), Entries: entries, OptsFromArgs: true,
 				Answer: func(idx int, e *refproto.Entry, _ []byte, rq *refproto.Request, seed int32) (refproto.SumHead, []refproto.Tok, [16]byte) {
 					f := byName[e.Name]
+					if f.HugeBasis > 0 {
+						// references to the blocks at and beyond the 2 GiB mark, read
+						// back from the sparse file itself
+						h := rq.Head
+						var toks []refproto.Tok
+						var D []byte
+						bf, err := os.Open(filepath.Join(lay.Dst, f.Name))
+						if err == nil && h.Count > 4 && h.BlockLen > 0 {
+							defer bf.Close()
+							cands := []int32{h.Count - 1, h.Count - 2, h.Count - 3, int32((int64(1)<<31)/int64(h.BlockLen)) + 1, int32((int64(1)<<31)/int64(h.BlockLen)), int32((int64(1)<<32)/int64(h.BlockLen)) + 1}
+							for k := 0; k < 6; k++ {
+								blk := cands[rng.Intn(len(cands))]
+								if blk < 0 || blk >= h.Count {
+									continue
+								}
+								lo, hi := h.BlockRange(blk)
+								buf := make([]byte, hi-lo)
+								if _, err := bf.ReadAt(buf, lo); err != nil {
+									continue
+								}
+								toks = append(toks, refproto.Tok{Block: blk})
+								D = append(D, buf...)
+								nrefs++
+								if rng.Intn(2) == 0 {
+									lit := []byte(fmt.Sprintf("<lit %d>", rng.Intn(1000)))
+									toks = append(toks, refproto.Tok{Lit: lit})
+									D = append(D, lit...)
+								}
+							}
+						}
+						if len(toks) == 0 {
+							toks = []refproto.Tok{{Lit: []byte("no block reference possible")}}
+							D = []byte("no block reference possible")
+						}
+						denoted[e.Name] = D
+						nout++
+						nhuge++
+						return h, toks, refproto.FileSum(D, seed)
+					}
 					basis := f.basis()
 					if f.NoBasis {
 						basis = nil
@@ -574,6 +676,7 @@ func c02Receiver(t *testing.T, sc *C02Scenario, job *Job, res *Result) {
 	res.Probe("scripted_files", nout)
 	res.Probe("scripted_block_refs", nrefs)
 	res.Probe("scripted_remainder_refs", nrem)
+	res.Probe("huge_sparse_bases", nhuge)
 	res.NonTrivial = nrefs > 0 && nout > 0
 	res.Sample = map[string]any{"mode": "receiver", "files": len(sc.Files), "scripted_block_refs": nrefs, "remainder_block_refs": nrem, "steps": out.Stats.Steps}
 }
